@@ -475,6 +475,7 @@ func C05(run *mon.Run) {
 			go func(c bcase) {
 				defer wg.Done()
 				defer func() { <-sem }()
+				defer run.Protect("c05 worker")
 				f(c)
 			}(c)
 		}
